@@ -348,7 +348,15 @@ application_call:
 			break;
 		}
 
-		++_next_receive_seq;
+		// only a message that carried the expected number moves the expected number on: one that is too
+		// high (a gap, to be resent) or a PossDup below it must not, or the first missing message would
+		// never be asked for again after a fault during the recovery. A SequenceReset sets it itself.
+		if (msg->get_msgtype() != Common_MsgType_SEQUENCE_RESET && seqnum == _next_receive_seq)
+		{
+			++_next_receive_seq;
+			if (_state == States::st_resend_request_sent) // the gap is being filled
+				do_state_change(States::st_continuous);
+		}
 		if (retry_plog)
 			plog(from, Logger::Info, 1);
 
@@ -393,7 +401,8 @@ application_call:
 		{
 			slout_error << e.what() << " - inbound message rejected";
 			handle_outbound_reject(seqnum, msg, e.what());
-			++_next_receive_seq;
+			if (seqnum == _next_receive_seq)
+				++_next_receive_seq;
 			update_persist_seqnums();
 			if (_plogger && _plogger->has_flag(Logger::inbound))
 				plog(from, Logger::Info, 1);
@@ -664,9 +673,14 @@ bool Session::handle_sequence_reset(const unsigned seqnum, const Message *msg)
 	{
 		slout_debug << "newseqnum = " << nsn() << ", _next_receive_seq = " << _next_receive_seq << " seqnum:" << seqnum;
 		if (nsn() >= static_cast<int>(_next_receive_seq))
-			_next_receive_seq = nsn() - 1;
-		else if (nsn() < static_cast<int>(_next_receive_seq))
-			throw MsgSequenceTooLow(nsn(), _next_receive_seq);
+			_next_receive_seq = nsn();
+		else
+		{
+			poss_dup_flag pdf(false);
+			msg->Header()->get(pdf);
+			if (!pdf())	// a replayed gap fill below the expected number is a harmless duplicate
+				throw MsgSequenceTooLow(nsn(), _next_receive_seq);
+		}
 	}
 
 	if (_state == States::st_resend_request_sent)
